@@ -696,8 +696,13 @@ func ruleNIter(w *World, r *Report) {
 			if p, ok := resolve(nv).(*ssa.Parameter); ok && w.isNavType(p.Type()) {
 				okn = true
 			}
+			if cp, ok := resolve(nv).(*ssa.Call); ok && cp.Call.IsInvoke() && w.navMethodClass(cp.Call.Method.Name()) == "copy" {
+				if p, ok := resolve(cp.Call.Value).(*ssa.Parameter); ok && w.isNavType(p.Type()) {
+					okn = true
+				}
+			}
 			if okq && okn {
-				r.ok("N-ITER", key, w.instrPos(a), "query = expr.q.Clone(), node = the caller's navigator")
+				r.ok("N-ITER", key, w.instrPos(a), "query = expr.q.Clone(), node = the caller's navigator (or a copy of it)")
 			} else {
 				r.bad("N-ITER", key, w.instrPos(a), fmt.Sprintf("the iterator is not built from (a clone of the expression's own query, the caller's navigator): query ok=%v node ok=%v — Evaluate and Select would iterate different things", okq, okn))
 			}
